@@ -207,4 +207,12 @@ theorem invx_alloc {h : Heap} (hinv : InvX h) {p : Plan} (hg : GoodX h p) :
   exact invx_ext hinv hnew (by rw [← he]; exact hres.imm hinv.immClosed) (by rw [← he]; exact hres.kind hinv.kindOK)
     (by rw [← he]; exact hres.typed hinv.typed)
 
+theorem trx_alloc {h : Heap} (hinv : InvX h) {p : Plan} (hg : GoodX h p) :
+    TrX h (allocPlan h p).1 ∧ (∃ e, (allocPlan h p).1 = h ++ e) ∧
+      (∀ k, rootKindP h p = some k → kindAt (allocPlan h p).1 (allocPlan h p).2 = some k) := by
+  obtain ⟨hi, ⟨e, he⟩, hk⟩ := invx_alloc hinv hg
+  refine ⟨⟨hi, ?_⟩, ⟨e, he⟩, hk⟩
+  intro a o ho _
+  exact ⟨o, by rw [he]; exact getElem?_append_of_some e ho, rfl, rfl, rfl⟩
+
 end BtcVerif.Model.Heap
